@@ -696,7 +696,7 @@ class NumWalker(Walker):
             kind, item = log[done]
             done += 1
             if kind == "cons":
-                lin.extend(self.num.from_constraint(item, lin))
+                lin.extend(self.num.from_constraint(item, lin + st.get("x_assume", [])))
             elif kind == "ev" and item[0] == "assert":
                 goal, _ = self.num.assert_cons(item)
                 if goal:
@@ -821,7 +821,7 @@ class NumWalker(Walker):
     def private_helper(self, nm):
         """a module-private function of the bit layer (src/impls) without a contract: analysed in the caller's context, so that
         moving code into a helper neither hides its obligations nor changes the verdict"""
-        if not nm.startswith(("impls::", "codes::")) or nm in self.contracts:
+        if not nm.startswith(("impls::", "codes::", "traits::", "utils::", "dispatch::")) or nm in self.contracts:
             return False
         bl = self.facts.by_path.get(nm, [])
         if not (len(bl) == 1 and bl[0]["kind"] in ("Fn", "AssocFn") and not bl[0].get("impl_trait") and bl[0].get("blocks")):
